@@ -53,6 +53,7 @@ package floodgate
 //@ func NewAesCipher
 //@   props C39
 //@   ensures [aes-key-sizes-only] (result.1 == nil) == (len(key) == 16 || len(key) == 24 || len(key) == 32)
+//@   ensures [the-whole-key-is-the-cipher-key] result.1 == nil ==> result.0 != nil && len(result.0.key) == len(key) && (forall i int :: 0 <= i && i < len(key) ==> result.0.key[i] == key[i])
 
 // The decrypted record: exactly 12 NUL-separated fields; user name non-empty; XUID a non-zero decimal; device, UI
 // profile and input mode decimal; the fields land where Floodgate puts them.
